@@ -72,6 +72,18 @@ func init() {
 			"the safety obligations of the loaders (nil dereferences etc.) belong to C04, not to this property",
 		},
 	}
+	propSpecs["C16"] = &PropSpec{
+		ID:       "C16",
+		Patterns: []string{"./internal/ast", "./internal/orderedmap", "./internal/tools"},
+		Level:    "proof",
+		Prepare:  func(e *Engine) { e.assumeKindInv = true },
+		Assumptions: []string{
+			"Schemas.ResolveToType is used as a pure function of (schemas, type, heap): `resolves to a struct - directly or through a chain of references` is by definition ResolveToType(object.Type).Kind == struct; the reference-following loop itself is not specified here",
+			"the schemas handed to FromAST are well formed: non-nil schemas with well-formed ordered maps (C19), and the IR kind/payload invariant (C04 standing assumptions)",
+			"covers BuilderGenerator.FromAST / structObjectToBuilder / structFieldToOption / FieldAssignment / ArgumentAssignment / ConstantAssignment / WithTypeConstraints / PathFromStructField; what `cog inspect --ir builders` prints afterwards (JSON encoding of these values) is outside the claim",
+			"equality of IR values in the contracts is equality of the Go values (same payload pointers); since the derivation modifies no pre-existing memory (frame obligations) this is equality of the types/defaults the schema holds",
+		},
+	}
 	propSpecs["C03"] = &PropSpec{
 		ID:       "C03",
 		Patterns: []string{"./..."},
